@@ -151,7 +151,7 @@ def compile_script(feed, tracked, opts, size, delivery, seq, quit_key='q'):
         nonlocal pend, pend_names
         if pend:
             steps.append({'op': 'keys', 'hex': hexs(pend), 'letters': pend_names})
-            steps.append({'op': 'sync', 'n': 3})
+            steps.append({'op': 'sync', 'n': 2})
             pend = b''
             pend_names = []
 
@@ -167,7 +167,7 @@ def compile_script(feed, tracked, opts, size, delivery, seq, quit_key='q'):
             if letter in RESIZE:
                 c, r = RESIZE[letter]
                 steps.append({'op': 'resize', 'cols': c, 'rows': r, 'letters': [letter]})
-                steps.append({'op': 'sync', 'n': 3})
+                steps.append({'op': 'sync', 'n': 2})
             elif letter == 'New':
                 name = 'new%d' % new_count
                 new_count += 1
